@@ -722,4 +722,56 @@ func TestVerif_C01(t *testing.T) {
 		"a chunk never exceeds the memtable size (the journal store's memtable is shrunk through the unexported memtableSz field to reach the flush-on-full path cheaply)")
 	defer rec.Write(t)
 	vh.Check(t, "model", 220, 1500, func(rt *rapid.T) { c01Case(rt, rec) })
+	t.Run("pinned_generational_without_ghost_store", c01PinnedNilGhost)
+}
+
+// c01PinnedNilGhost is a pinned regression case, not the deciding step: store/spec (noms CLI,
+// `dolt roots`) builds GenerationalNBS with a nil ghost store; Has and HasMany must still agree.
+func c01PinnedNilGhost(t *testing.T) {
+	const id = "C01-generational-hasmany-nil-ghost"
+	ctx := context.Background()
+	dir, rm := vh.ScratchDir(t, "c01-ng-")
+	defer rm()
+	old := filepath.Join(dir, "oldgen")
+	if err := os.MkdirAll(old, 0o755); err != nil {
+		vh.Inconclusive(t, "mkdir: %v", err)
+	}
+	q := NewUnlimitedMemQuotaProvider()
+	newGen, err := newLocalStore(ctx, constants.FormatDoltString, dir, 1<<20, 1<<20, q, false)
+	if err != nil {
+		vh.Inconclusive(t, "open: %v", err)
+	}
+	oldGen, err := newLocalStore(ctx, constants.FormatDoltString, old, 1<<20, 1<<20, q, false)
+	if err != nil {
+		_ = newGen.Close()
+		vh.Inconclusive(t, "open: %v", err)
+	}
+	gcs := NewGenerationalCS(oldGen, newGen, nil)
+	defer gcs.Close()
+	present := chunks.NewChunk([]byte("present chunk"))
+	if err := gcs.Put(ctx, present, verifNoRefs); err != nil {
+		t.Fatalf("Put: %v", err)
+	}
+	if ok, err := gcs.Commit(ctx, present.Hash(), hash.Hash{}); err != nil || !ok {
+		t.Fatalf("Commit: %v %v", ok, err)
+	}
+	never := vc.ForgeAddr(7, 7, 7)
+	has, err := gcs.Has(ctx, never)
+	if err != nil || has {
+		t.Fatalf("Has(never written) = %v, %v", has, err)
+	}
+	absent, err := gcs.HasMany(ctx, hash.NewHashSet(never, present.Hash()))
+	if err != nil {
+		t.Fatalf("HasMany: %v", err)
+	}
+	if absent.Has(never) && !absent.Has(present.Hash()) {
+		return // agrees with Has
+	}
+	what := fmt.Sprintf("GenerationalNBS (old gen + new gen, ghost store nil as store/spec builds it): Has(%s) = false but HasMany reports absent set %v for {never-written %s, present %s}; want exactly the never-written address", never, absent, never, present.Hash())
+	if vh.OpenFinding("C01", id) {
+		vh.ReportKnown("C01", id, what)
+		return
+	}
+	vh.NoteViolation(t.Name(), "", fmt.Sprintf(`{"finding_id":%q,"what":%q}`, id, what))
+	t.Errorf("finding-id=%s: %s", id, what)
 }
